@@ -1,0 +1,66 @@
+// SPDX-FileCopyrightText: 2026 The Pion community <https://pion.ly>
+// SPDX-License-Identifier: MIT
+
+//go:build verif
+
+// Contracts (comment-only; consumed by /verif's VC generator) for property C17:
+// candidate and pair priorities follow the RFC 8445 / RFC 6544 formulas.
+
+package ice
+
+//@ spec func typePref(t int) int = ite(t == 1, 126, ite(t == 3, 110, ite(t == 2, 100, 0)))
+//@ spec func isTCPnt(nt int) bool = nt == 3 || nt == 4
+//@ spec func dirPref(t int, tcp int) int = ite(t == 1 || t == 4, ite(tcp == 1, 6, ite(tcp == 2, 4, ite(tcp == 3, 2, 0))), ite(t == 2 || t == 3, ite(tcp == 3, 6, ite(tcp == 1, 4, ite(tcp == 2, 2, 0))), 0))
+//@ spec func pairPrio(g int, d int) int = 4294967295*min(g,d) + 2*max(g,d) + ite(g > d, 1, 0)
+//@ spec func u32(x int) bool = 0 <= x && x <= 4294967295
+
+//@ func (CandidateType).Preference
+//@   props C17
+//@   pure
+//@   ensures table: result == typePref(c)
+
+//@ func (NetworkType).IsTCP
+//@   props C17
+//@   pure
+//@   ensures result == isTCPnt(t)
+
+//@ func (*candidateBase).TypePreference
+//@   props C17
+//@   requires c != nil
+//@   pure
+//@   ensures udp: !isTCPnt(c.networkType) ==> result == typePref(c.candidateType)
+//@   ensures relay: typePref(c.candidateType) == 0 ==> result == 0
+//@   ensures tcp-agent: isTCPnt(c.networkType) && c.currAgent != nil && c.currAgent.tcpPriorityOffset <= typePref(c.candidateType) ==> result == typePref(c.candidateType) - c.currAgent.tcpPriorityOffset
+//@   ensures tcp-default: isTCPnt(c.networkType) && c.currAgent == nil && typePref(c.candidateType) != 0 ==> result == typePref(c.candidateType) - 27
+//@   ensures range: 0 <= result && result <= 126
+
+//@ func (*candidateBase).LocalPreference
+//@   props C17
+//@   requires c != nil
+//@   pure
+//@   ensures relay: c.candidateType == 4 ==> result == c.relayLocalPreference
+//@   ensures tcp: c.candidateType != 4 && isTCPnt(c.networkType) ==> result == 8192*dirPref(c.candidateType, c.tcpType) + 8191
+//@   ensures udp: c.candidateType != 4 && !isTCPnt(c.networkType) ==> result == 65535
+
+//@ func (*candidateBase).Priority
+//@   props C17
+//@   requires c != nil
+//@   pure
+//@   ensures override: c.priorityOverride != 0 ==> result == c.priorityOverride
+//@   ensures range: c.priorityOverride == 0 ==> 0 <= result && result <= 2147483647
+//@   ensures positive: c.priorityOverride == 0 && 1 <= c.component && c.component <= 255 ==> result >= 1
+//@   ensures formula-udp: c.priorityOverride == 0 && !isTCPnt(c.networkType) && c.candidateType != 4 && c.component <= 256 ==> result == 16777216*typePref(c.candidateType) + 256*65535 + (256 - c.component)
+//@   ensures formula-relay: c.priorityOverride == 0 && c.candidateType == 4 && c.component <= 256 ==> result == 256*c.relayLocalPreference + (256 - c.component)
+
+//@ func (*CandidatePair).priority
+//@   props C17
+//@   requires p != nil
+//@   pure
+//@   ensures override: p.hasPriorityOverride ==> result == p.priorityOverride
+//@   ensures controlling: !p.hasPriorityOverride && p.iceRoleControlling ==> result == pairPrio(candPrio(p.Local.payload), candPrio(p.Remote.payload))
+//@   ensures controlled: !p.hasPriorityOverride && !p.iceRoleControlling ==> result == pairPrio(candPrio(p.Remote.payload), candPrio(p.Local.payload))
+
+//@ lemma C17 pairPrioFits: forall g int, d int :: u32(g) && u32(d) ==> 0 <= pairPrio(g,d) && pairPrio(g,d) <= 18446744073709551615
+//@ lemma C17 pairPrioMonoG: forall g int, g2 int, d int :: u32(g) && u32(g2) && u32(d) && g <= g2 ==> pairPrio(g,d) <= pairPrio(g2,d)
+//@ lemma C17 pairPrioMonoD: forall g int, d int, d2 int :: u32(g) && u32(d) && u32(d2) && d <= d2 ==> pairPrio(g,d) <= pairPrio(g,d2)
+//@ lemma C17 pairPrioSymIffEq: forall g int, d int :: u32(g) && u32(d) ==> (pairPrio(g,d) == pairPrio(d,g)) == (g == d)
